@@ -178,7 +178,9 @@ def _sig_of_state(s):
     op = ev.get("op", ev.get("e", "?")) if isinstance(ev, dict) else str(ev)[:24]
     mode = (ev.get("mode", "") if isinstance(ev, dict) else "") or last.get("kind", "")
     out = last.get("out", "?")
-    return (f"{op}{':' + str(mode) if mode else ''}", out if isinstance(out, str) else str(out)[:24])
+    cause = last.get("cause", "")
+    out = out if isinstance(out, str) else str(out)[:24]
+    return (f"{op}{':' + str(mode) if mode else ''}", out + (":" + cause if isinstance(cause, str) and cause else ""))
 
 
 def _edge_paths(parent, edges):
